@@ -65,15 +65,15 @@ Lemma flag_ok_high ni fp P : LCompare <= P -> flag_ok ni fp P.
 Proof. intros H _. right. exact H. Qed.
 
 Definition Gen (e : expr) : Prop :=
-  forall fp ni P L rest res, flag_ok ni fp P -> 0 <= P -> (L < S_Call \/ P = LNew) -> L <= S_Call -> lv_ok fp L P e -> fol P rest = true ->
-    PSx ni L (norm e) (ll_of fp P e) rest res -> PEx ni L (toks (print_items fp P e) ++ rest) res.
+  forall fp ss ni P L rest res, flag_ok ni fp P -> 0 <= P -> (L < S_Call \/ P = LNew) -> L <= S_Call -> lv_ok fp L P e -> fol P rest = true ->
+    PSx ni L (norm e) (ll_of fp P e) rest res -> PEx ni L (toks (print_items fp ss P e) ++ rest) res.
 Definition Unw (e : expr) : Prop :=
-  forall fb ni Pb P L rest res, flag_ok ni fb P -> is_in e && fb = false ->
+  forall fb sb ni Pb P L rest res, flag_ok ni fb P -> is_in e && fb = false ->
     0 <= P -> P < lvl e -> (forall f a, e = ENew f a -> P = Pb \/ LPostfix <= Pb) ->
     (L < S_Call \/ P = LNew) -> L <= S_Call -> lv_ok fb L P e -> fol P rest = true ->
-    PSx ni L (norm e) (strat Pb e) rest res -> PEx ni L (toks (body fb Pb e) ++ rest) res.
+    PSx ni L (norm e) (strat Pb e) rest res -> PEx ni L (toks (body fb sb Pb e) ++ rest) res.
 Definition GenArgs (a : expr) : Prop :=
-  forall rest, PAx (toks (print_items false LComma a) ++ TP [41] :: rest) (norm a, rest).
+  forall rest, PAx (toks (print_items false false LComma a) ++ TP [41] :: rest) (norm a, rest).
 
 Lemma unw_not_wrapped fb P e : compound e = true -> P < lvl e -> is_in e && fb = false -> wrapped fb P e = false.
 Proof.
@@ -102,14 +102,14 @@ Qed.
 
 Lemma gen_of_unw e : compound e = true -> Unw e -> Gen e.
 Proof.
-  intros Hc U fp ni P L rest res Hfl HP HL HL2 Hlv Hf Hs.
+  intros Hc U fp ss ni P L rest res Hfl HP HL HL2 Hlv Hf Hs.
   rewrite print_items_split. unfold PrintParse.ll_of in Hs. destruct (wrapped fp P e) eqn:W.
   - rewrite !toks_app, <- !app_assoc. change (toks [IOpen]) with [TP [40]]. change (toks [IClose]) with [TP [41]].
     simpl app.
     destruct open_tok as (O0 & O1 & O2 & O3). destruct close_tok as (C1 & C2 & C3 & C4).
     apply (E_paren ni L (TP [40]) _ (norm e) (TP [41]) rest res O0 O1 O2 O3); [|exact C4|exact Hs].
     pose proof (compound_lvl e Hc) as Hl.
-    apply (U false false P 0 0); try lia.
+    apply (U false false false P 0 0); try lia.
     + apply flag_ok_off.
     + intros f a E. subst e. right. unfold wrapped in W. simpl in W. rewrite orb_false_r in W. rewrite Z.geb_leb in W. apply Z.leb_le in W.
       unfold LPostfix, LCall in *. lia.
@@ -119,7 +119,7 @@ Proof.
     + reflexivity.
     + apply S_stop. reflexivity.
   - destruct (unwrapped_level fp P e Hc W) as [W1 W2].
-    apply (U fp ni P P L); try assumption. intros f a _. left. reflexivity.
+    apply (U fp ss ni P P L); try assumption. intros f a _. left. reflexivity.
 Qed.
 
 Lemma target_shape v : is_target v = true -> compound v = false /\ strat 0 v = S_Member.
@@ -195,17 +195,17 @@ Proof.
   induction e as [s|s|b f|t IHt s|o v IHv|o l IHl r IHr|c IHc y IHy n IHn|t IHt i IHi|f IHf a IHa|f IHf a IHa| |x IHx r IHr];
     (split; [intros Hwf Hcn; try (destruct Hwf; fail) | intros Hwa Hcn; try (destruct Hwa; fail)]).
   - (* identifier *)
-    intros fp ni P L rest res Hfl HP HL HL2 Hlv Hf Hs. simpl in *. destruct Hwf as [_ Hr].
+    intros fp ss ni P L rest res Hfl HP HL HL2 Hlv Hf Hs. simpl in *. destruct Hwf as [_ Hr].
     apply (E_atom ni L (TId s) rest (EId s)); [apply is_new_word; exact Hr | apply find_op_word; exact Hr | simpl; rewrite Hr; reflexivity | exact Hs].
-  - intros fp ni P L rest res Hfl HP HL HL2 Hlv Hf Hs. simpl in *.
+  - intros fp ss ni P L rest res Hfl HP HL HL2 Hlv Hf Hs. simpl in *.
     apply (E_atom ni L (TNum s) rest (ENum s)); [reflexivity | apply find_op_num | reflexivity | exact Hs].
-  - intros fp ni P L rest res Hfl HP HL HL2 Hlv Hf Hs. simpl in *.
+  - intros fp ss ni P L rest res Hfl HP HL HL2 Hlv Hf Hs. simpl in *.
     apply (E_atom ni L (TRe b f) rest (ERe b f)); [reflexivity | apply find_op_re | reflexivity | exact Hs].
   - (* member access *)
-    intros fp ni P L rest res Hfl HP HL HL2 Hlv Hf Hs. destruct Hwf as (Hwt & Hs1 & Hs2). simpl in Hcn.
+    intros fp ss ni P L rest res Hfl HP HL HL2 Hlv Hf Hs. destruct Hwf as (Hwt & Hs1 & Hs2). simpl in Hcn.
     cbn [Token.print_items]. rewrite toks_app, <- app_assoc. change (toks [IDot s]) with [TP [46]; TId s]. simpl app.
     destruct (targetT false L (tgt_level P) t (tgt_level_cases P L HL)) as [Hlt Hll].
-    apply (proj1 IHt Hwt Hcn false ni (tgt_level P) L); try assumption.
+    apply (proj1 IHt Hwt Hcn false ss ni (tgt_level P) L); try assumption.
     + apply flag_ok_high. unfold tgt_level. destruct (P =? LNew); unfold LNew, LPostfix, LCompare; lia.
     + unfold tgt_level. destruct (P =? LNew); unfold LNew, LPostfix; lia.
     + unfold tgt_level. destruct (P =? LNew) eqn:E; [right; reflexivity|]. left.
@@ -214,7 +214,7 @@ Proof.
     + apply S_dot; [reflexivity | exact Hll | exact Hs].
   - (* unary *)
     apply gen_of_unw; [reflexivity|].
-    intros fb ni Pb P L rest res Hfl Hin HP HPl _ HL HL2 Hlv Hf Hs. destruct Hwf as (Hwv & Hku & Hupd). simpl in Hcn.
+    intros fb sb ni Pb P L rest res Hfl Hin HP HPl _ HL HL2 Hlv Hf Hs. destruct Hwf as (Hwv & Hku & Hupd). simpl in Hcn.
     rewrite body_un. simpl lvl in *. simpl norm in Hs. simpl PrintParse.strat in Hs.
     assert (HL19 : L < S_Update).
     { destruct Hlv as [W|W]; [|exact W]. rewrite (unw_not_wrapped fb P (EUn o v) eq_refl HPl Hin) in W. discriminate. }
@@ -223,7 +223,7 @@ Proof.
       destruct (pre_tok o Ek) as (T0 & T1 & T2). rewrite (pre_level o Ek) in *.
       rewrite toks_app, <- app_assoc. change (toks [IOp o]) with (toks_of (IOp o) ++ []). rewrite T2. simpl app.
       apply (E_prefix ni L (op_tok o) _ o (norm v) rest res T0 T1); [apply Z.leb_gt; unfold S_New, S_Update in *; lia| | |exact Hs].
-      * apply (proj1 IHv Hwv Hcn false false (LPrefix - 1) S_Unary); try (unfold LPrefix, S_Unary, S_Update, S_Call; lia).
+      * apply (proj1 IHv Hwv Hcn false false false (LPrefix - 1) S_Unary); try (unfold LPrefix, S_Unary, S_Update, S_Call; lia).
         -- apply flag_ok_off.
         -- apply operand17; [exact Hwv | unfold S_Unary, S_Update; lia].
         -- apply (fol_weaken P); [unfold LPrefix, S_Unary in *; lia | exact Hf].
@@ -234,7 +234,7 @@ Proof.
       destruct (post_tok o Ek) as (T1 & T2 & T3). destruct (post_level o Ek) as [El Eu]. rewrite El in *.
       specialize (Hupd Eu). destruct (target_shape v Hupd) as [Hcv Hlv'].
       rewrite toks_app, <- app_assoc. change (toks [IOp o]) with (toks_of (IOp o) ++ []). rewrite T3. simpl app.
-      apply (proj1 IHv Hwv Hcn false ni (LPostfix - 1) L); try assumption.
+      apply (proj1 IHv Hwv Hcn false sb ni (LPostfix - 1) L); try assumption.
       * apply flag_ok_high. unfold LPostfix, LCompare. lia.
       * unfold LPostfix. lia.
       * left. unfold S_Update, S_Call in *. lia.
@@ -246,7 +246,7 @@ Proof.
     + congruence.
   - (* binary *)
     apply gen_of_unw; [reflexivity|].
-    intros fb ni Pb P L rest res Hfl Hin HP HPl _ HL HL2 Hlv Hf Hs. destruct Hwf as (Hwl & Hwr & Hk & Hta). destruct Hcn as (Hcl & Hcr & Hcm).
+    intros fb sb ni Pb P L rest res Hfl Hin HP HPl _ HL HL2 Hlv Hf Hs. destruct Hwf as (Hwl & Hwr & Hk & Hta). destruct Hcn as (Hcl & Hcr & Hcm).
     rewrite body_bin. simpl lvl in *. rewrite (norm_bin o l r Hcm) in Hs. simpl PrintParse.strat in Hs.
     destruct (bin_tok o Hk) as (T1 & T2 & T3 & T4). destruct (bin_level o Hk) as (B1 & B2 & B3).
     assert (HLo : L < op_level o).
@@ -259,7 +259,7 @@ Proof.
     assert (HLc : L < S_Call) by (unfold S_Call; lia).
     rewrite !toks_app, <- !app_assoc. change (toks [IOp o]) with (toks_of (IOp o) ++ []). rewrite T4. simpl app.
     pose proof (left_lvl_ge o l) as Hll. pose proof (right_lvl_ge o r Hk) as Hrl.
-    apply (proj1 IHl Hwl Hcl fb ni (left_lvl o l) L); try assumption; try lia.
+    apply (proj1 IHl Hwl Hcl fb sb ni (left_lvl o l) L); try assumption; try lia.
     + apply (flag_ok_mono ni fb P); [exact Hfl | unfold lpl in Hll; destruct (is_right_assoc o); lia].
     + destruct l as [| | | |u w|o2 a b2|c0 y0 n0| |f0 a0| | |]; simpl; auto.
       * right. unfold S_Update. lia.
@@ -277,7 +277,7 @@ Proof.
       * rewrite spec_level_is_op_level. apply Z.leb_gt. exact HLo.
       * exact Hni.
       * apply left_ok_print; assumption.
-      * apply (proj1 IHr Hwr Hcr fb ni (right_lvl o r) (right_level o)); try (unfold S_Call; lia).
+      * apply (proj1 IHr Hwr Hcr fb false ni (right_lvl o r) (right_level o)); try (unfold S_Call; lia).
         -- apply (flag_ok_mono ni fb P); [exact Hfl | lia].
         -- apply right_ok_print; assumption.
         -- apply (fol_weaken P); [lia | exact Hf].
@@ -287,7 +287,7 @@ Proof.
       * rewrite spec_level_is_op_level. exact Hs.
   - (* conditional *)
     apply gen_of_unw; [reflexivity|].
-    intros fb ni Pb P L rest res Hfl Hin HP HPl _ HL HL2 Hlv Hf Hs. destruct Hwf as (Hwc & Hwy & Hwn). destruct Hcn as (Hcc & Hcy & Hcn).
+    intros fb sb ni Pb P L rest res Hfl Hin HP HPl _ HL HL2 Hlv Hf Hs. destruct Hwf as (Hwc & Hwy & Hwn). destruct Hcn as (Hcc & Hcy & Hcn).
     rewrite body_cond. simpl lvl in *. simpl norm in Hs. simpl PrintParse.strat in Hs.
     assert (HL5 : L < LConditional /\ P <= LYield).
     { destruct Hlv as [W|W]; [|exact W]. rewrite (unw_not_wrapped fb P (ECond c y n) eq_refl HPl Hin) in W. discriminate. }
@@ -296,7 +296,7 @@ Proof.
     rewrite !toks_app, <- !app_assoc. change (toks [IQuest]) with [TP [63]]. change (toks [IColon]) with [TP [58]]. simpl app.
     assert (Hfl3 : flag_ok ni fb LYield).
     { intro Hn. destruct (Hfl Hn) as [E|E]; [left; exact E | unfold LCompare, LYield in *; lia]. }
-    apply (proj1 IHc Hwc Hcc fb ni LConditional L); try assumption.
+    apply (proj1 IHc Hwc Hcc fb sb ni LConditional L); try assumption.
     + unfold LConditional. lia.
     + left. exact HLc.
     + destruct c as [| | | |u w|o2 a b2|c0 y0 n0| |f0 a0| | |]; simpl; auto.
@@ -304,44 +304,60 @@ Proof.
       * destruct (LConditional >=? op_level o2) eqn:E; [left; apply wrapped_level; [reflexivity | exact E]|].
         right. rewrite Z.geb_leb in E. apply Z.leb_gt in E. lia.
     + reflexivity.
-    + destruct (colon_stop 3 (toks (print_items fb LYield n) ++ rest)) as [Cs Cf].
+    + destruct (colon_stop 3 (toks (print_items fb false LYield n) ++ rest)) as [Cs Cf].
       destruct (lv_ok_low false y) as (_ & Ly & _). destruct (lv_ok_low fb n) as (_ & Ln & _).
-      apply (S_cond ni L (norm c) _ (TP [63]) _ (norm y) (TP [58]) (toks (print_items fb LYield n) ++ rest) (norm n) rest res);
+      apply (S_cond ni L (norm c) _ (TP [63]) _ (norm y) (TP [58]) (toks (print_items fb false LYield n) ++ rest) (norm n) rest res);
         try reflexivity.
       * apply Z.leb_gt. unfold S_Cond, LConditional in *. lia.
       * apply Z.ltb_lt. pose proof (ll_of_ge mw fb LConditional c). unfold S_Cond, S_Member, LConditional in *. lia.
-      * apply (proj1 IHy Hwy Hcy false false LYield 3); try assumption; try (unfold LYield, S_Call; lia).
+      * apply (proj1 IHy Hwy Hcy false false false LYield 3); try assumption; try (unfold LYield, S_Call; lia).
         -- apply flag_ok_off.
         -- apply S_stop. exact Cs.
-      * apply (proj1 IHn Hwn Hcn fb ni LYield 3); try assumption; try (unfold LYield, S_Call; lia).
+      * apply (proj1 IHn Hwn Hcn fb false ni LYield 3); try assumption; try (unfold LYield, S_Call; lia).
         -- apply (fol_weaken P); [exact HP3 | exact Hf].
         -- apply S_stop. apply (fol_stop P); [exact Hf | unfold LPrefix, LYield in *; lia | unfold LYield in *; lia|].
            intros o' Hk' Hl'. apply low_ops_stop; [exact Hk' | lia].
       * exact Hs.
   - (* index access *)
-    intros fp ni P L rest res Hfl HP HL HL2 Hlv Hf Hs. destruct Hwf as (Hwt & Hwi). destruct Hcn as (Hct & Hci).
-    cbn [Token.print_items]. rewrite !toks_app, <- !app_assoc. change (toks [ILBrack]) with [TP [91]]. change (toks [IRBrack]) with [TP [93]]. simpl app.
-    destruct (targetT false L (tgt_level P) t (tgt_level_cases P L HL)) as [Hlt Hll].
-    apply (proj1 IHt Hwt Hct false ni (tgt_level P) L); try assumption.
-    + apply flag_ok_high. unfold tgt_level. destruct (P =? LNew); unfold LNew, LPostfix, LCompare; lia.
-    + unfold tgt_level. destruct (P =? LNew); unfold LNew, LPostfix; lia.
-    + unfold tgt_level. destruct (P =? LNew) eqn:E; [right; reflexivity|]. left.
-      destruct HL as [HL|HL]; [exact HL|]. apply Z.eqb_neq in E. contradiction.
-    + unfold tgt_level. destruct (P =? LNew); reflexivity.
-    + destruct (rbrack_stop 0 rest) as [Rs Rf]. destruct (lv_ok_low false i) as (Li & _).
+    intros fp ss ni P L rest res Hfl HP HL HL2 Hlv Hf Hs. destruct Hwf as (Hwt & Hwi). destruct Hcn as (Hct & Hci).
+    cbn [Token.print_items].
+    assert (Hidx : forall lft llv, S_Call <=? llv = true -> lft = norm t ->
+              PSx ni L lft llv (TP [91] :: toks (print_items false false LLowest i) ++ TP [93] :: rest) res).
+    { intros lft llv Hllv El. subst lft. destruct (rbrack_stop 0 rest) as [Rs Rf]. destruct (lv_ok_low false i) as (Li & _).
       apply (S_index ni L (norm t) _ (TP [91]) _ (norm i) (TP [93]) rest res); try reflexivity; try assumption.
-      apply (proj1 IHi Hwi Hci false false 0 0); try assumption; try (unfold S_Call; lia).
-      * apply flag_ok_off.
-      * apply S_stop. exact Rs.
+      apply (proj1 IHi Hwi Hci false false false 0 0); try assumption; try (unfold S_Call; lia).
+      - apply flag_ok_off.
+      - apply S_stop. exact Rs. }
+    destruct (ss && is_let t) eqn:Elet.
+    + (* "(let)[i]" at the start of a statement *)
+      apply andb_true_iff in Elet as [_ Elet]. destruct t as [s| | | | | | | | | | |]; try discriminate.
+      destruct Hwt as [_ Hr].
+      unfold paren. cbn [Token.print_items]. rewrite !toks_app, <- !app_assoc.
+      change (toks [IOpen]) with [TP [40]]. change (toks [IClose]) with [TP [41]]. change (toks [IId s]) with [TId s].
+      change (toks [ILBrack]) with [TP [91]]. change (toks [IRBrack]) with [TP [93]]. simpl app.
+      destruct open_tok as (O0 & O1 & O2 & O3). destruct close_tok as (C1 & C2 & C3 & C4).
+      eapply (E_paren ni L (TP [40]) _ (EId s) (TP [41]) _ res O0 O1 O2 O3); [|exact C4|].
+      * apply (E_atom false 0 (TId s) _ (EId s)); [apply is_new_word; exact Hr | apply find_op_word; exact Hr | simpl; rewrite Hr; reflexivity|].
+        apply S_stop. reflexivity.
+      * apply (Hidx (EId s) S_Member); reflexivity.
+    + unfold paren. rewrite !toks_app, <- !app_assoc. change (toks [ILBrack]) with [TP [91]]. change (toks [IRBrack]) with [TP [93]]. simpl app.
+      destruct (targetT false L (tgt_level P) t (tgt_level_cases P L HL)) as [Hlt Hll].
+      apply (proj1 IHt Hwt Hct false ss ni (tgt_level P) L); try assumption.
+      * apply flag_ok_high. unfold tgt_level. destruct (P =? LNew); unfold LNew, LPostfix, LCompare; lia.
+      * unfold tgt_level. destruct (P =? LNew); unfold LNew, LPostfix; lia.
+      * unfold tgt_level. destruct (P =? LNew) eqn:E; [right; reflexivity|]. left.
+        destruct HL as [HL|HL]; [exact HL|]. apply Z.eqb_neq in E. contradiction.
+      * unfold tgt_level. destruct (P =? LNew); reflexivity.
+      * apply Hidx; [exact Hll | reflexivity].
   - (* call *)
     apply gen_of_unw; [reflexivity|].
-    intros fb ni Pb P L rest res Hfl Hin HP HPl _ HL HL2 Hlv Hf Hs. destruct Hwf as (Hwf' & Hwa). destruct Hcn as (Hcf & Hca).
+    intros fb sb ni Pb P L rest res Hfl Hin HP HPl _ HL HL2 Hlv Hf Hs. destruct Hwf as (Hwf' & Hwa). destruct Hcn as (Hcf & Hca).
     rewrite body_call. simpl lvl in *. simpl norm in Hs. simpl PrintParse.strat in Hs.
     assert (HLc : L < S_Call).
     { destruct Hlv as [W|W]; [|exact W]. rewrite (unw_not_wrapped fb P (ECall f a) eq_refl HPl Hin) in W. discriminate. }
     rewrite !toks_app, <- !app_assoc. change (toks [ICallOpen]) with [TP [40]]. change (toks [IClose]) with [TP [41]]. simpl app.
     destruct (targetT false L LPostfix f (or_introl (conj eq_refl HLc))) as [Hlt Hll].
-    apply (proj1 IHf Hwf' Hcf false ni LPostfix L); try assumption.
+    apply (proj1 IHf Hwf' Hcf false sb ni LPostfix L); try assumption.
     + apply flag_ok_high. unfold LPostfix, LCompare. lia.
     + unfold LPostfix. lia.
     + left. exact HLc.
@@ -353,17 +369,17 @@ Proof.
       * exact Hs.
   - (* new *)
     apply gen_of_unw; [reflexivity|].
-    intros fb ni Pb P L rest res Hfl Hin HP HPl HPb HL HL2 Hlv Hf Hs. destruct Hwf as (Hwf' & Hwa). destruct Hcn as (Hcf & Hca).
+    intros fb sb ni Pb P L rest res Hfl Hin HP HPl HPb HL HL2 Hlv Hf Hs. destruct Hwf as (Hwf' & Hwa). destruct Hcn as (Hcf & Hca).
     specialize (HPb f a eq_refl).
     unfold PrintParse.body. simpl norm in Hs. simpl PrintParse.strat in Hs.
     rewrite !toks_app, <- !app_assoc. change (toks [INew]) with [TId [110; 101; 119]]. simpl app.
     destruct (targetT false S_Call LNew f (or_intror eq_refl)) as [Hlt _].
     destruct (PrintParse.new_parens mw Pb a) eqn:Enp.
     + (* with an argument list *)
-      change (toks (ICallOpen :: print_items false LComma a ++ [IClose])) with (TP [40] :: toks (print_items false LComma a ++ [IClose])).
+      change (toks (ICallOpen :: print_items false false LComma a ++ [IClose])) with (TP [40] :: toks (print_items false false LComma a ++ [IClose])).
       rewrite toks_app. change (toks [IClose]) with [TP [41]]. simpl app. rewrite <- app_assoc. simpl app.
-      apply (E_new_args ni L (TId [110; 101; 119]) _ (norm f) (TP [40]) (toks (print_items false LComma a) ++ TP [41] :: rest) (norm a) rest res); try reflexivity.
-      * apply (proj1 IHf Hwf' Hcf false false LNew S_Call); try assumption; try (unfold LNew, S_Call; lia).
+      apply (E_new_args ni L (TId [110; 101; 119]) _ (norm f) (TP [40]) (toks (print_items false false LComma a) ++ TP [41] :: rest) (norm a) rest res); try reflexivity.
+      * apply (proj1 IHf Hwf' Hcf false false false LNew S_Call); try assumption; try (unfold LNew, S_Call; lia).
         -- apply flag_ok_off.
         -- reflexivity.
         -- apply S_stop. reflexivity.
@@ -376,7 +392,7 @@ Proof.
       assert (HPP : P = Pb) by (destruct HPb as [E|E]; [exact E | lia]). subst Pb.
       simpl app. destruct (fol_no_member P rest Hf Ep19) as [Hst Hno].
       apply (E_new_bare ni L (TId [110; 101; 119]) _ (norm f) rest res); try reflexivity.
-      * apply (proj1 IHf Hwf' Hcf false false LNew S_Call); try assumption; try (unfold LNew, S_Call; lia).
+      * apply (proj1 IHf Hwf' Hcf false false false LNew S_Call); try assumption; try (unfold LNew, S_Call; lia).
         -- apply flag_ok_off.
         -- apply (fol_weaken P); [unfold LNew, LPostfix in *; lia | exact Hf].
         -- apply S_stop. exact Hst.
@@ -391,13 +407,13 @@ Proof.
     + (* last argument *)
       rewrite app_nil_r. destruct (close_stop 3 rest) as [Cs Cf].
       apply (A_last _ (norm x) (TP [41]) rest); [|reflexivity].
-      apply (proj1 IHx Hwx Hcx false false LComma 3); try assumption; try (unfold LComma, S_Call; lia).
+      apply (proj1 IHx Hwx Hcx false false false LComma 3); try assumption; try (unfold LComma, S_Call; lia).
       * apply flag_ok_off.
       * apply S_stop. exact Cs.
     + rewrite !toks_app, <- !app_assoc. change (toks [IOp BComma]) with [TP [44]]. simpl app.
-      destruct (comma_stop (toks (print_items false LComma (ACons x2 r2)) ++ TP [41] :: rest)) as (Ks & Kf & Kc & Kk).
-      apply (A_more _ (norm x) (TP [44]) (toks (print_items false LComma (ACons x2 r2)) ++ TP [41] :: rest) (norm (ACons x2 r2)) rest); [|exact Kc | exact Kk|].
-      * apply (proj1 IHx Hwx Hcx false false LComma 3); try assumption; try (unfold LComma, S_Call; lia).
+      destruct (comma_stop (toks (print_items false false LComma (ACons x2 r2)) ++ TP [41] :: rest)) as (Ks & Kf & Kc & Kk).
+      apply (A_more _ (norm x) (TP [44]) (toks (print_items false false LComma (ACons x2 r2)) ++ TP [41] :: rest) (norm (ACons x2 r2)) rest); [|exact Kc | exact Kk|].
+      * apply (proj1 IHx Hwx Hcx false false false LComma 3); try assumption; try (unfold LComma, S_Call; lia).
         -- apply flag_ok_off.
         -- apply S_stop. exact Ks.
       * apply (proj2 IHr Hwr Hcr).
@@ -413,11 +429,11 @@ Proof.
   rewrite (parse_expr_mono n m _ _ _ _ Hle E). exact H.
 Qed.
 
-Theorem parse_print_items_cnf fi e :
-  wf e -> cnf e -> exists n, forall m, (n <= m)%nat -> parse_fuel m fi (toks (print_items fi LLowest e)) = Some (norm e).
+Theorem parse_print_items_cnf fi ss e :
+  wf e -> cnf e -> exists n, forall m, (n <= m)%nat -> parse_fuel m fi (toks (print_items fi ss LLowest e)) = Some (norm e).
 Proof.
   intros Hwf Hcn.
-  destruct (print_parse_gen e Hwf Hcn fi fi LLowest 0 [] (norm e, [])) as [n Hn].
+  destruct (print_parse_gen e Hwf Hcn fi ss fi LLowest 0 [] (norm e, [])) as [n Hn].
   - intro H. left. exact H.
   - unfold LLowest. lia.
   - left. unfold S_Call. lia.
